@@ -35,8 +35,14 @@ func TestMain(m *testing.M) {
 }
 
 func newLogger() *logging.MemLogger {
+	ml, _ := newLoggerWithLevel()
+	return ml
+}
+
+func newLoggerWithLevel() (*logging.MemLogger, zap.AtomicLevel) {
 	cfg := zap.NewProductionEncoderConfig()
-	return logging.NewMemLogger(zapcore.NewJSONEncoder(cfg), zap.NewAtomicLevelAt(zapcore.InfoLevel))
+	lvl := zap.NewAtomicLevelAt(zapcore.InfoLevel)
+	return logging.NewMemLogger(zapcore.NewJSONEncoder(cfg), lvl), lvl
 }
 
 func messages(ml *logging.MemLogger) []string {
@@ -101,7 +107,11 @@ type core struct {
 func TestSequential(t *testing.T) {
 	ev.Rapid(t, 400, 6000)
 	rapid.Check(t, func(rt *rapid.T) {
-		ml := newLogger()
+		ml, lvl := newLoggerWithLevel()
+		debugOn, levelSwitches := false, 0
+		// a field list the caller owns and passes again and again (with fields that produce no output in it)
+		reused := []zap.Field{zap.String("user", "alice"), zap.Skip(), zap.Error(nil), zap.String("op", "read")}
+		withReused := map[string]bool{}
 		cores := []*core{{c: ml.GetCore(), lg: zap.New(ml.GetCore())}}
 		target := gen.Pick(rt, []func() int{
 			func() int { return gen.Uniform(rt, 0, 20, "tsmall") },
@@ -134,6 +144,20 @@ func TestSequential(t *testing.T) {
 			if d := diff(messages(ml), expect(total)); d != "" {
 				failf("%s: GetLogs after %d accepted writes: %s", when, total, d)
 			}
+			for _, e := range ml.GetLogs() {
+				if e == nil || !withReused[e.Message] {
+					continue
+				}
+				var got []string
+				for _, f := range e.Context {
+					if f.Type != zapcore.SkipType {
+						got = append(got, f.Key+"="+f.String)
+					}
+				}
+				if fmt.Sprint(got) != "[user=alice op=read]" {
+					failf("%s: entry %s was written with the fields user=alice, op=read (and two fields that produce no output); it is retained with %v", when, e.Message, got)
+				}
+			}
 		}
 		deriveMid, parentAndChildWrote := false, false
 		// long histories write in bursts between the interesting steps
@@ -165,7 +189,20 @@ func TestSequential(t *testing.T) {
 				}
 				if !forceRead && gen.Chance(rt, 12, "special") {
 					burst = 1
-					via = gen.Pick(rt, []string{"core-blank", "logger-blank", "logger-big"}, "via3")
+					via = gen.Pick(rt, []string{"core-blank", "logger-blank", "logger-big", "logger-reused-fields", "logger-reused-fields", "switch-level"}, "via3")
+				}
+				if via == "switch-level" {
+					// the enabler is switched at run time: from now on debug entries count (or no longer do), through
+					// loggers derived before the switch as well
+					debugOn = !debugOn
+					levelSwitches++
+					if debugOn {
+						lvl.SetLevel(zapcore.DebugLevel)
+					} else {
+						lvl.SetLevel(zapcore.InfoLevel)
+					}
+					hist = append(hist, fmt.Sprintf("debug entries enabled: %v", debugOn))
+					continue
 				}
 				hist = append(hist, fmt.Sprintf("write x%d via %s on core %d", burst, via, ci))
 				for b := 0; b < burst && total < limit; b++ {
@@ -193,7 +230,16 @@ func TestSequential(t *testing.T) {
 						total++
 						bigEntries++
 						c.lg.Info(strconv.Itoa(total), zap.String("payload", strings.Repeat("p", gen.Pick(rt, []int{4096, 32768, 40000, 70000}, "biglen"))))
+					case "logger-reused-fields":
+						total++
+						withReused[strconv.Itoa(total)] = true
+						c.lg.Info(strconv.Itoa(total), reused...)
 					default:
+						if debugOn {
+							total++
+							c.lg.Debug(strconv.Itoa(total))
+							continue
+						}
 						c.lg.Debug("below the enabler") // must not be recorded
 						if ce := c.c.Check(zapcore.Entry{Level: zapcore.DebugLevel, Message: "below the enabler"}, nil); ce != nil {
 							ce.Write()
@@ -267,6 +313,8 @@ func TestSequential(t *testing.T) {
 		add(fullTurns > 0, "read-exactly-k*capacity-writes-after-the-previous-read")
 		add(len(cores) > 1, "derived-cores")
 		add(len(blank) > 0, "entries-without-message")
+		add(levelSwitches > 0, "level-switched-at-run-time")
+		add(len(withReused) > 1, "caller-owned-field-list-passed-repeatedly")
 		add(bigEntries > 0, "entries-of-4..70-KiB")
 		add(parentAndChildWrote, "parent-and-derived-both-wrote")
 		ev.Case(strings.Join(hist, ";"), nt, cls...)
